@@ -263,14 +263,19 @@ pub fn leaf_texts(tier: &str) -> Vec<String> {
         for t in ["<=1.1.0", "<1.1.0", "<=2.0.0", "<2.0.0", ">=1.0.0", "<=1.0.5", ">=1.0.0-a", "<2.0.0-b"] {
             out.push(t.to_string());
         }
-        for k in 1..=49u32 {
-            let p = (1u64 << k) + 1;
-            if p > MAX_SAFE {
-                break;
+        for k in 2..=49u32 {
+            for d in [0u64, 1, 2] {
+                let p = (1u64 << k) - 1 + d; // 2^k - 1, 2^k, 2^k + 1
+                if p > MAX_SAFE {
+                    continue;
+                }
+                for t in [format!(">=1.0.{}", p), format!("<1.0.{}", p), format!(">=1.{}.0", p), format!("<=1.{}.7", p), format!(">={}.0.0-a", p)] {
+                    out.push(t);
+                }
             }
-            for t in [format!(">=1.0.{}", p), format!(">1.0.{}", p), format!(">=1.{}.0", p), format!("<=1.{}.0", p), format!(">={}.0.0-a", p), format!("<={}.0.5", p)] {
-                out.push(t);
-            }
+        }
+        for t in ["<=1.1.7", ">=2.0.7", "<2.0.7", ">=1.1.0 <2.0.0", ">=2.0.0-a"] {
+            out.push(t.to_string());
         }
         return out;
     }
@@ -283,7 +288,7 @@ pub fn leaf_texts(tier: &str) -> Vec<String> {
         // components above 2^32 / 2^33 next to small ones, and prerelease tags whose numeric and
         // textual orders disagree (9 < 10 < 1a by SemVer; "10" < "1a" < "9" as text)
         "exotic" => (
-            vec!["1.0.4294967297", "1.1.0", "1.8589934593.0", "2.0.0", "1.0.0-9", "1.0.0-10", "1.0.0-1a"],
+            vec!["1.0.4294967297", "1.1.0", "1.8589934593.0", "2.0.0", "1.0.0-9", "1.0.0-10", "1.0.0-1a", "1.0.1"],
             vec!["1.1.0"],
         ),
         _ => (vec!["1.0.0", "2.0.0", "1.0.0-a", "2.0.0-0.a"], vec!["1.0.0", "2.0.0"]),
